@@ -156,6 +156,15 @@ def run_case(case, ctx):
     npath = F0.shape[1]
     dl = np.array([[float(body.dist(build.to_local(spec, p, m)[None])[0]) / body.L for p in P] for m in range(npath)])
     far = 100.0 * np.finfo(float).eps * dl**3  # (M, K)
+    # where the library's own accuracy band (C01 envelope) is wide, the value is only defined up to that band and the
+    # two routes may differ by as much; where C01 asserts nothing (inf) neither does this check
+    from vf.props import c01  # pylint: disable=import-outside-toplevel
+
+    band = np.array([c01.accuracy_band(cls, body, np.array([build.to_local(spec, p, m) for p in P])) for m in range(npath)])
+    band = np.where(band > 1e-5, 3.0 * band, 0.0)
+    if np.any(band > 0):
+        ctx.label("observer_in_wide_accuracy_band")
+    far = far + band
 
     def _far_like(F):
         """broadcast (M,K) to the result shape (1, M, K or 1, ..., 3)"""
